@@ -40,7 +40,8 @@ Lemma obj_step_stack : forall V s o s1 sends e,
   obj_step V s o = (s1, sends, e) -> stack s1 = stack s.
 Proof.
   intros V s o s1 sends e H.
-  destruct o; unfold obj_step, ok, fail in H;
+  unfold obj_step in H; destruct (maps_ok s o); [|unfold fail in H; inversion H; reflexivity];
+  destruct o; unfold obj_step_core, ok, fail in H;
     repeat match type of H with
            | context [match ?x with _ => _ end] => destruct x eqn:?
            | context [if ?x then _ else _] => destruct x eqn:?
